@@ -407,6 +407,7 @@ class Oracle:
         self.states = {}     # key -> dict(S, ver, tainted)
         self.univ = []
         self.ucanon = []
+        self.ghost = {}
 
     def fail(self, key, what, i):
         self.bad.append((key, what, i))
@@ -493,6 +494,7 @@ class Oracle:
         if op == "univ":
             self.univ = [(w[j], w[j + 1]) for j in range(1, len(w) - 1, 2)]
             self.ucanon = [canon(t, x) for t, x in self.univ]
+            self.ghost[i] = "G"
             return
         created = None
         if out == "noview" or out == "noblk":
@@ -653,6 +655,15 @@ class Oracle:
                     created = v
         elif op == "drop":
             self.views.pop(int(w[1]), None)
+        # ---- the ghost as a line (compared with the Lean promise ghost, `dsmodel_bloom bloomghost`)
+        g = "G"
+        for v in sorted(self.views):
+            d = self.views[v]
+            st = self.states[d["state"]]
+            ins = d["state"][0] == "own" or (not st["tainted"] and d["sync"] == st["ver"])
+            g += " g%d=%d%d:%s" % (v, d["promised"], ins, "".join(
+                "1" if (c is not None and d["promised"] and c in d["M"]) else "0" for c in self.ucanon))
+        self.ghost[i] = g
         # ---- the property on every live view
         for v, d in self.views.items():
             r = vr.get(v)
@@ -701,7 +712,24 @@ class Main(Part):
         return hs
 
     def oracle(self, hist, impl_out):
-        return Oracle(hist, impl_out).run()
+        o = Oracle(hist, impl_out)
+        bad = o.run()
+        # the oracle's book-keeping must be the promise ghost of the Lean statements (DSModel/Bloom/Promise.lean):
+        # compared line by line up to the first reported failure (after which the oracle deliberately forgets)
+        if o.ghost and not any(k == "bad-observation" for k, _, _ in bad):
+            stop = min([idx for _, _, idx in bad] + [len(hist)])
+            try:
+                mo, moc, _ = core.run_model(self.model_exe, "bloomghostfixed" if os.environ.get("C15_MODEL_FIXED") else "bloomghost", hist)
+            except Exception:
+                mo, moc = [], "error"
+            if moc == "ok":
+                for i in sorted(o.ghost):
+                    if i > stop or i >= len(mo):
+                        break
+                    if core.norm(mo[i]) != core.norm(o.ghost[i]):
+                        bad.append(("oracle-ghost-divergence", "python oracle %r vs Lean promise ghost %r" % (o.ghost[i][:120], mo[i][:120]), i))
+                        break
+        return bad
 
     def nontrivial_key(self, hist, impl_out):
         kinds = {}
@@ -789,6 +817,29 @@ class SuggPart(Part):
         return [h]
 
 
+class EdgePart(Part):
+    """liveness edge: only the regress corpus (num_hashes = 65535), short watchdog, implementation only."""
+    name = "edge"
+    harness = "bloom_h"
+    model_exe = None
+    compare_model = False
+    timeout = 30
+
+    def generate(self, rng, tier):
+        return []
+
+    def search_histories(self, rng, tier, around=None):
+        return []
+
+    def oracle(self, hist, impl_out):
+        if impl_out and impl_out[-1].strip() == "hang":
+            i = len(impl_out) - 1
+            k = [l.split()[3] for l in hist if l.startswith("new ")]
+            key = "hang-num-hashes-65535" if "65535" in k else "hang"
+            return [(key, "operation `%s` did not return within the watchdog (filter with num_hashes = %s)" % (hist[min(i, len(hist) - 1)], ",".join(k)), i)]
+        return []
+
+
 class C15(Spec):
     pid = "C15"
     props_modules = ["DSProofs.Props.C15"]
@@ -805,28 +856,36 @@ class C15(Spec):
                     "correspondence harness harness/bloom_h.cpp + generators (sampled histories; public const API observations on every live view + raw bytes of caller blocks)",
                     "memory blocks are modelled as byte strings owned by the history; C++ object lifetime/aliasing outside this store is not modelled"]
     assumptions = ["theorems are about DSModel/Bloom/Model.lean; the tie to bloom_filter_impl.hpp / bit_array_ops.hpp is differential (sampled)",
-                   "promises about a caller block hold under single-writer discipline (a write through a view whose cached count is stale voids them)",
+                   "promises about a caller block hold under single-writer discipline (a write through a view whose cached count is stale voids them); "
+                   "the Python oracle's book-keeping is compared line by line with the Lean promise ghost (dsmodel_bloom bloomghost) on every history",
+                   "repaired-model theorems are for histories whose filters stay below 2^32 bits (the readers' 32-bit `num_longs << 6` wraps above that; "
+                   "MAX_FILTER_SIZE_BITS is ~2^34: not executable here, noted in the report)",
                    "images on which the reader would run past the buffer or divide by zero (C11's subject) are outside the modelled domain and not generated",
                    "false-positive rate near the target: statistical, not decided here (DESIGN.md section 5)"]
 
     def parts(self):
-        return [Main(), HashPart(), SuggPart()]
+        return [Main(), HashPart(), SuggPart(), EdgePart()]
 
 
 SPEC = C15()
 
 CLAIM = dict(
     text=("Kernel-checked theorems over ALL histories (any number of filters and caller-memory blocks, any sizes / hash counts / seeds, "
-          "any hash function) of an executable Lean model of bloom_filter with an explicit memory store: every inserted item's bits stay "
-          "set in its bit state and in every copy / image / wrap derived from it, query = (not is_empty) and all-bits-set, "
-          "query_and_update returns the all-bits-set answer from before the call, union/intersect/invert are bitwise OR/AND/NOT on the "
-          "capacity bits with bits_used = popcount, and the documented refusals. Where the CURRENT code violates the full statement "
-          "(stale stored count after updates through caller memory, stale count after query_and_update on a dirty filter, set operations "
-          "through read-only wraps) the model is as coded, the violation is a theorem with a concrete witness that is replayed on the real "
-          "code every run, and the full statement is proved for the model with the proposed repairs. Plus a differential tie of that model, "
-          "of the Lean XXHash64 and of the per-overload canonicalisation to the real headers on generated histories, plus the property "
-          "oracle (inserted-set bookkeeping per bit state) on every implementation trace."),
+          "ANY hash function, every wire-compatible layout) of an executable Lean model of bloom_filter with an explicit memory store. "
+          "For the code as it is: every recorded item's index bits stay set in its bit state and in every copy / non-empty image / "
+          "deserialized filter / wrap of the same memory (bloom_no_false_negative_partial), query = not is_empty() and all-bits-set, "
+          "query_and_update returns the all-bits-set answer from before the call (bloom_qau_prior_partial), union/intersect/invert are "
+          "bitwise OR/AND/NOT on the capacity bits (capacity always a multiple of 64) with bits_used = popcount and the count written "
+          "through (bloom_setops_bitwise), and the documented refusals (bloom_refusals_partial). The full statements that the CURRENT "
+          "code violates (stale stored count after update() through caller memory = D13; stale count after query_and_update on a dirty "
+          "filter; set operations through read-only wraps) are refuted by kernel-evaluated witness histories with the real XXHash64 "
+          "(…_full_false) which are replayed on the real code every run, and are PROVED for the model with the proposed one-line repairs "
+          "(bloom_no_false_negative_fixed, bloom_qau_prior_fixed, bloom_refusals_fixed; invariant preserved by every operation). Plus a "
+          "differential tie of the model, of the Lean XXHash64 (all lengths 0..64+, 4 published known answers) and of the per-overload "
+          "canonicalisation to the real headers on generated histories, the property oracle (inserted-set bookkeeping per bit state and "
+          "view, itself compared with the Lean promise ghost) on every implementation trace, and a watchdog replay of num_hashes=65535."),
     note=("Not decided: 'false-positive rate stays near the target' (statistical). Not modelled: reader behaviour on truncated/corrupt "
-          "images that run past the buffer (C11), move construction/assignment, allocator behaviour (C19), num_hashes = 65535."),
+          "images that run past the buffer (C11), move construction/assignment and allocator behaviour (C19), filters of 2^32 bits and "
+          "more (32-bit num_longs arithmetic in the readers). Promises about caller memory assume single-writer discipline."),
     technique="Lean 4 invariant proofs over operation histories with a memory store + differential correspondence (model vs real headers) + trace oracle",
     design="DESIGN.md §3 C15")
